@@ -124,8 +124,10 @@ class SimultaneousScheduler(Scheduler):
                     model.data_collector.collect_agent_statistics(time, model.agents)
 
 
-        # If any delayed events observed, store them in the model's events list for later use
-        model.events += self.delayed_events
+        # If any delayed events observed, store them in the model's events list for later use.
+        # delayed_events was filled by pop()ing from the end of model.events, so it is in reverse order: put the
+        # events back in their original order, in front of the events sent during this step (first in, first out)
+        model.events[:0] = reversed(self.delayed_events)
 
         self.delayed_events = []
 
